@@ -75,6 +75,9 @@ class World:
         self.cmds = []
         self.pos = 0
         self.armed = []         # [(point pattern, op, remaining uses)]
+        self.xlog = []          # the primitive commands actually executed, each with the observation after it
+        self.xstop = False      # set once something happened that spec/PoolImpl.tla has no counterpart for
+        self.inhandle = []      # operations performed at user-code points during the current step
         self.drift = None
         self.skipped = 0
         pools = cfg["pools"] if "pools" in cfg else [cfg]
@@ -118,6 +121,7 @@ class World:
                 pr = self.pools[cmd["op"].get("p", 0)]
                 pr.ev("skip", what="in:" + cmd.get("pt", "?"))
             elif c == "newpool":
+                self.xstop = True
                 # a pool created while others exist / after another one was closed (C11: names stay distinct)
                 pr = PoolRun(self, len(self.pools), cmd["cfg"])
                 self.pools.append(pr)
@@ -133,6 +137,7 @@ class World:
             elif c == "drain":
                 self.drain()
             elif c == "probe":
+                self.xstop = True
                 self.pools[cmd.get("p", 0)].probe(cmd["k"])
             else:
                 raise ValueError("unknown schedule command %r" % (cmd,))
@@ -140,8 +145,19 @@ class World:
             pr.ev("final", idle=self.loop.idle(), drained=self.drained)
         self.recording = False
 
+    def pred(self, pr):
+        got = pr.obs_dict()
+        got["nready"] = self.loop.nready()
+        got["val"] = pr.priv_sem()
+        return got
+
     def step(self):
+        self.inhandle = []
         h = self.loop.step()
+        if h is not None and not self.xstop and not self.multi:
+            for pt, xop in self.inhandle:
+                self.xlog.append({"c": "arm", "pt": pt, "op": xop})
+            self.xlog.append({"c": "step", "o": self.pred(self.pools[0])})
         if h is None:
             for pr in self.pools:
                 pr.ev("skip", what="step")
@@ -573,6 +589,45 @@ class PoolRun:
             f["pre"], f["idx"] = self.split_name(f.get("ret", ""))
         f["G"] = True
         self.ev("op", **f)
+        self.log_executed(op, f, where)
+
+    def log_executed(self, op, f, where):
+        """The operation just performed, in the vocabulary of spec/PoolImpl.tla (for following the schedule in the model)."""
+        w = self.w
+        if w.xstop or w.multi:
+            return
+        o = op["o"]
+        x = {"o": o}
+        if o == "spawn":
+            x["t"] = (f["num"] + 1) if self.simple else (op["t"] + 1)
+            if self.simple and not 0 <= f["num"] <= 3:
+                w.xstop = True
+                return
+            if not self.simple and self.tpls[op["t"]].get("probe"):
+                w.xstop = True
+                return
+        elif o == "cancel":
+            x["ids"] = list(f["ids"])
+        elif o == "cancel_group":
+            x.update(g=f["g"], r=-1)
+        elif o in ("stop",):
+            x["n"] = f["n"]
+        elif o == "set_size":
+            x["n"] = f["n"]
+        elif o == "get_ids":
+            x["names"] = list(f["names"])
+        elif o == "hstart":
+            x.update(kind=f["kind"], re=f["re"])
+        elif o == "hcancel":
+            x["h"] = f["h"]
+        elif o == "release":
+            x.update(id=f["id"], out=f["out"])
+        elif o == "release_cb":
+            x.update(id=f["id"], which=f["which"])
+        if where == "gap":
+            w.xlog.append({"c": "op", "op": x, "o": w.pred(self)})
+        else:
+            w.inhandle.append((where, x))
 
     def op_spawn(self, op, f):
         """op = {"o":"spawn","t":template index} (TaskPool) or {"o":"spawn","num":n} (SimpleTaskPool).
@@ -692,7 +747,7 @@ def execute(schedule):
     w = World(schedule["cfg"])
     try:
         w.run(schedule["cmds"])
-        return {"trace": w.trace, "drift": w.drift, "skipped": w.skipped, "loop_errors": w.loop_errors}
+        return {"trace": w.trace, "drift": w.drift, "skipped": w.skipped, "loop_errors": w.loop_errors, "xlog": w.xlog}
     finally:
         w.close()
 
